@@ -193,6 +193,11 @@ class Run:
         os.makedirs(EVIDENCE_DIR, exist_ok=True)
         with open(os.path.join(EVIDENCE_DIR, f"{self.prop}.json"), "w") as f:
             json.dump(ev, f, indent=1, sort_keys=True)
+        # evidence/<id>.json is rewritten by every run; a copy per tier is kept next to it
+        by_tier = os.path.join(_OUT, "evidence_by_tier")
+        os.makedirs(by_tier, exist_ok=True)
+        with open(os.path.join(by_tier, f"{self.prop}.{self.tier}.json"), "w") as f:
+            json.dump(ev, f, indent=1, sort_keys=True)
         st, tr = cov.get("states"), cov.get("transitions")
         print(f"{self.prop} {self.tier}: states={st} transitions={tr} violations={len(reported)} "
               f"known={sum(h['count'] for h in known_hits.values())} wall={ev['wall_s']}s exit={rc}")
